@@ -330,6 +330,24 @@ type wmSession struct {
 	wf      bool // every done so far matched an earlier begin
 }
 
+// wmWaitBody is the goroutine of a WaitForMark call (its name is looked for in stacks).
+func wmWaitBody(w *y.WaterMark, ctx context.Context, idx uint64, ch chan struct{}) {
+	if err := w.WaitForMark(ctx, idx); err == nil {
+		close(ch)
+	}
+}
+
+// outstanding counts the WaitForMark goroutines that have not returned.
+func (s *wmSession) outstanding() int {
+	n := 0
+	for _, wt := range s.waiters {
+		if !wt.raw && !wt.gone && !isClosed(wt.ch) {
+			n++
+		}
+	}
+	return n
+}
+
 func newWMSession() *wmSession {
 	w, stop := y.VerifNewWaterMark("verif")
 	ctx, cancel := context.WithCancel(context.Background())
@@ -371,7 +389,7 @@ func (s *wmSession) sweep() (woke []string, fails []string) {
 
 func (s *wmSession) close() (fails []string) {
 	// last chance to notice early releases of WaitForMark goroutines
-	s.w.VerifBarrier()
+	settle("wmWaitBody", s.w.VerifBarrier, s.outstanding, false)
 	_, f := s.sweep()
 	fails = append(fails, f...)
 	s.cancel()
@@ -429,6 +447,7 @@ func execWatermark(ops []string, st *Stats) ([]string, []string) {
 			continue
 		}
 		st.Inc("op:" + w[0])
+		fresh := false
 		switch w[0] {
 		case "begin", "done", "beginmany", "donemany":
 			if (w[0] == "begin" || w[0] == "done") && len(args) != 1 {
@@ -443,6 +462,23 @@ func execWatermark(ops []string, st *Stats) ([]string, []string) {
 			if !s.sh.apply(w[0], args) {
 				outs[i] = "assert"
 				st.Inc("wm:assert-refused")
+				continue
+			}
+			// the specification accepts the mark; if the implementation's watermark is already
+			// past one of its indices (a violation reported when it happened) the call would
+			// kill the process: refuse it
+			realAhead := false
+			for _, a := range args {
+				if a < s.w.DoneUntil() {
+					realAhead = true
+				}
+			}
+			if w[0] == "donemany" && len(args) == 0 && s.w.DoneUntil() > 0 {
+				realAhead = true
+			}
+			if realAhead {
+				outs[i] = "assert"
+				fail(i, fmt.Sprintf("[du-ahead-of-pending] DoneUntil=%d is past an index of this mark although the specification has DoneUntil=%d", s.w.DoneUntil(), s.prevDU))
 				continue
 			}
 			if w[0] == "done" || w[0] == "donemany" {
@@ -474,18 +510,18 @@ func execWatermark(ops []string, st *Stats) ([]string, []string) {
 			} else {
 				ch := make(chan struct{})
 				wt.ch = ch
-				go func(idx uint64) {
-					if err := s.w.WaitForMark(s.ctx, idx); err == nil {
-						close(ch)
-					}
-				}(wt.idx)
+				go wmWaitBody(s.w, s.ctx, wt.idx, ch)
+				fresh = true
 			}
 			s.waiters = append(s.waiters, wt)
 		default:
 			outs[i] = "bad-op"
 			continue
 		}
-		s.w.VerifBarrier()
+		// all WaitForMark goroutines are back or parked with their mark handled
+		if !settle("wmWaitBody", s.w.VerifBarrier, s.outstanding, fresh) {
+			fail(i, "[waiter-lost] a WaitForMark goroutine is neither back nor parked")
+		}
 		du := s.w.DoneUntil()
 		woke, fails := s.sweep()
 		outs[i] = s.out(woke)
@@ -535,15 +571,17 @@ func parseU(s string) (v uint64, err error) {
 
 // countParked counts goroutines whose stack contains `marker` and that are parked in the
 // select of WaterMark.WaitForMark.
+var stackBuf = make([]byte, 1<<18)
+
 func countParked(marker string) int {
-	buf := make([]byte, 1<<20)
+	var buf []byte
 	for {
-		n := runtime.Stack(buf, true)
-		if n < len(buf) {
-			buf = buf[:n]
+		n := runtime.Stack(stackBuf, true)
+		if n < len(stackBuf) {
+			buf = stackBuf[:n]
 			break
 		}
-		buf = make([]byte, 2*len(buf))
+		stackBuf = make([]byte, 2*len(stackBuf))
 	}
 	cnt := 0
 	for _, blk := range strings.Split(string(buf), "\n\n") {
@@ -570,7 +608,11 @@ func countParked(marker string) int {
 // settle waits until the `outstanding()` blocking calls still not returned are all parked in
 // WaitForMark (after `barrier` made the watermark goroutines quiescent). It returns false when
 // that does not happen within strandedTimeout (some goroutine is neither back nor parked).
-func settle(marker string, barrier func(), outstanding func() int) bool {
+// A goroutine parked in the select has sent its waiter mark; `fresh` says that a goroutine was
+// launched by the current op, in which case the mark may not have been handled yet: a second
+// barrier flushes it and the goroutines are looked at once more (a released one is no longer
+// parked). Without a fresh goroutine every parked one had its mark handled by an earlier op.
+func settle(marker string, barrier func(), outstanding func() int, fresh bool) bool {
 	deadline := time.Now().Add(strandedTimeout)
 	for spin := 0; ; spin++ {
 		barrier()
@@ -579,8 +621,9 @@ func settle(marker string, barrier func(), outstanding func() int) bool {
 			return true
 		}
 		if countParked(marker) >= n {
-			// parked goroutines have sent their waiter mark; make sure it has been handled,
-			// then look once more: a released one is not parked any more.
+			if !fresh {
+				return true
+			}
 			barrier()
 			n2 := outstanding()
 			if n2 == 0 || countParked(marker) >= n2 {
@@ -1011,12 +1054,12 @@ func execOracle(ops []string, st *Stats) ([]string, []string) {
 		// readers still blocked at the end of a session are released by finishing all commits
 		if !s.managed {
 			for _, c := range s.ref.commits {
-				if !c.done {
+				if !c.done && c.ts >= s.v.State().TxnDoneUntil { // below: Done would log.Fatal (already reported)
 					s.v.DoneCommit(c.ts)
-					c.done = true
 				}
+				c.done = true
 			}
-			if !settle("orcReaderBody", s.v.Barrier, s.outstanding) || s.outstanding() != 0 {
+			if !settle("orcReaderBody", s.v.Barrier, s.outstanding, true) || s.outstanding() != 0 {
 				fail(i, "[reader-stranded] a transaction start is still blocked although every commit is done")
 			}
 		}
@@ -1084,6 +1127,14 @@ func execOracle(ops []string, st *Stats) ([]string, []string) {
 			if s.managed || a[0] != uint64(len(s.txns)) {
 				break
 			}
+			if before.ReadDoneUntil > before.NextTxnTs-1 {
+				// readMark.Begin(nextTxnTs-1) would log.Fatal
+				res = "assert"
+				fail(i, fmt.Sprintf("[readmark-ahead-of-next] readMark.DoneUntil=%d > nextTxnTs-1=%d", before.ReadDoneUntil, before.NextTxnTs-1))
+				s.txns = append(s.txns, &orcTxn{state: rtClosed, ref: &refTxn{state: rtClosed}})
+				s.ref.txns = append(s.ref.txns, s.txns[len(s.txns)-1].ref)
+				break
+			}
 			t := &orcTxn{update: a[1] == 1, state: rtBlocked, ch: make(chan uint64, 1), expectR: before.NextTxnTs - 1}
 			t.ref = &refTxn{readTs: s.ref.next - 1, update: t.update, writes: map[uint64]bool{}, state: rtBlocked}
 			s.ref.txns = append(s.ref.txns, t.ref)
@@ -1121,6 +1172,18 @@ func execOracle(ops []string, st *Stats) ([]string, []string) {
 				break
 			}
 			wantConflict := s.ref.conflictSpec(t.ref)
+			if !s.managed && t.readTs < before.ReadDoneUntil {
+				res = "assert"
+				fail(i, fmt.Sprintf("[readmark-ahead-of-open-txn] readMark.DoneUntil=%d although transaction %d with readTs %d is open", before.ReadDoneUntil, a[0], t.readTs))
+				t.state = rtClosed
+				t.ref.state = rtClosed
+				break
+			}
+			if !s.managed && before.TxnDoneUntil > before.NextTxnTs {
+				res = "assert" // txnMark.Begin(nextTxnTs) would log.Fatal
+				fail(i, fmt.Sprintf("[txnmark-ahead-of-next] txnMark.DoneUntil=%d > nextTxnTs=%d", before.TxnDoneUntil, before.NextTxnTs))
+				break
+			}
 			if s.managed {
 				// AssertTrue(ts >= lastCleanupTs) would kill the process (log.Fatalf cannot be
 				// recovered): refuse the call exactly when the production hasConflict — evaluated
@@ -1180,6 +1243,14 @@ func execOracle(ops []string, st *Stats) ([]string, []string) {
 			}
 		case w[0] == "discard" && len(a) == 1:
 			if t := getTxn(0); t != nil && (t.state == rtActive || t.state == rtClosing) {
+				if !s.managed && t.readTs < before.ReadDoneUntil {
+					// readMark.Done(readTs) below its doneUntil would log.Fatal
+					res = "assert"
+					fail(i, fmt.Sprintf("[readmark-ahead-of-open-txn] readMark.DoneUntil=%d although transaction %d with readTs %d is open", before.ReadDoneUntil, a[0], t.readTs))
+					t.state = rtClosed
+					t.ref.state = rtClosed
+					break
+				}
 				if !s.managed {
 					s.v.DoneRead(t.x)
 				}
@@ -1189,6 +1260,11 @@ func execOracle(ops []string, st *Stats) ([]string, []string) {
 			}
 		case w[0] == "donecommit" && len(a) == 1:
 			for _, c := range s.ref.commits {
+				if c.ts == a[0] && !c.done && !s.managed && a[0] < before.TxnDoneUntil {
+					res = "assert"
+					fail(i, fmt.Sprintf("[txnmark-ahead-of-pending-commit] txnMark.DoneUntil=%d although commit %d is not done", before.TxnDoneUntil, a[0]))
+					c.done = true
+				}
 				if c.ts == a[0] && !c.done {
 					s.v.DoneCommit(a[0])
 					c.done = true
@@ -1230,7 +1306,7 @@ func execOracle(ops []string, st *Stats) ([]string, []string) {
 			continue
 		}
 		// ---- quiescence, then collect the transaction starts that returned
-		settled := settle("orcReaderBody", s.v.Barrier, s.outstanding)
+		settled := settle("orcReaderBody", s.v.Barrier, s.outstanding, own >= 0)
 		var woke []string
 		for tid, t := range s.txns {
 			if t.state == -1 {
@@ -1280,6 +1356,22 @@ func execOracle(ops []string, st *Stats) ([]string, []string) {
 						}
 					}
 				}
+			}
+		}
+		// ---- C02/C34 invariants evaluated on the implementation's state
+		if fin := s.v.State(); !s.managed {
+			for tid, t := range s.txns {
+				if (t.state == rtActive || t.state == rtClosing) && t.readTs < fin.ReadDoneUntil {
+					fail(i, fmt.Sprintf("[readmark-ahead-of-open-txn] readMark.DoneUntil=%d although transaction %d with readTs %d is open", fin.ReadDoneUntil, tid, t.readTs))
+				}
+			}
+			for _, c := range s.ref.commits {
+				if !c.done && c.ts <= fin.TxnDoneUntil {
+					fail(i, fmt.Sprintf("[txnmark-ahead-of-pending-commit] txnMark.DoneUntil=%d although commit %d is not done", fin.TxnDoneUntil, c.ts))
+				}
+			}
+			if fin.LastCleanupTs > fin.ReadDoneUntil {
+				fail(i, fmt.Sprintf("[cleanup-ahead-of-readmark] lastCleanupTs=%d > readMark.DoneUntil=%d", fin.LastCleanupTs, fin.ReadDoneUntil))
 			}
 		}
 		wk := "-"
@@ -1406,6 +1498,7 @@ type dbTxn struct {
 	txn     *badger.Txn
 	update  bool
 	closed  bool
+	leaked  bool // never discarded: its Done(readTs) would hit the watermark assertion
 	readTs  uint64
 	pend    map[string]*string // own writes (nil = delete)
 	readLog map[string]string  // tracked reads: key -> observed ("" = not found, else "v"+hex)
@@ -1471,12 +1564,17 @@ func execTxn(ops []string, st *Stats) ([]string, []string) {
 		if s == nil {
 			return
 		}
+		leaked := false
 		for _, t := range s.txns {
-			if !t.closed {
+			if !t.closed && t.readTs >= s.v.State().ReadDoneUntil {
 				t.txn.Discard()
+			} else if !t.closed || t.leaked {
+				leaked = true
 			}
 		}
-		_ = s.db.Close()
+		if !leaked {
+			_ = s.db.Close()
+		}
 		s = nil
 	}
 	keyName := func(k uint64) string {
@@ -1685,6 +1783,13 @@ func execTxn(ops []string, st *Stats) ([]string, []string) {
 				break
 			}
 			before := s.v.State()
+			if t.readTs < before.ReadDoneUntil {
+				res = "assert"
+				fail(i, fmt.Sprintf("[readmark-ahead-of-open-txn] readMark.DoneUntil=%d although transaction %d with readTs %d is open", before.ReadDoneUntil, tid, t.readTs))
+				t.closed = true // leaked on purpose: Discard would log.Fatal
+				t.leaked = true
+				break
+			}
 			wantConflict := t.update && len(t.pend) > 0 && s.ref.conflictSpec(t.ref)
 			var err error
 			if !withTimeout(func() { err = t.txn.Commit() }) {
@@ -1749,6 +1854,13 @@ func execTxn(ops []string, st *Stats) ([]string, []string) {
 			if t == nil || t.closed {
 				break
 			}
+			if rd := s.v.State().ReadDoneUntil; t.readTs < rd {
+				res = "assert"
+				fail(i, fmt.Sprintf("[readmark-ahead-of-open-txn] readMark.DoneUntil=%d although transaction %d with readTs %d is open", rd, tid, t.readTs))
+				t.closed = true
+				t.leaked = true
+				break
+			}
 			t.txn.Discard()
 			t.closed = true
 			t.ref.state = rtClosed
@@ -1758,7 +1870,16 @@ func execTxn(ops []string, st *Stats) ([]string, []string) {
 			continue
 		}
 		s.v.Barrier()
-		outs[i] = res + " " + dumpOracle(s.v.State(), keyName)
+		fin := s.v.State()
+		for tid2, t2 := range s.txns {
+			if !t2.closed && t2.readTs < fin.ReadDoneUntil {
+				fail(i, fmt.Sprintf("[readmark-ahead-of-open-txn] readMark.DoneUntil=%d although transaction %d with readTs %d is open", fin.ReadDoneUntil, tid2, t2.readTs))
+			}
+		}
+		if fin.LastCleanupTs > fin.ReadDoneUntil {
+			fail(i, fmt.Sprintf("[cleanup-ahead-of-readmark] lastCleanupTs=%d > readMark.DoneUntil=%d", fin.LastCleanupTs, fin.ReadDoneUntil))
+		}
+		outs[i] = res + " " + dumpOracle(fin, keyName)
 	}
 	closeSession()
 	return outs, oracle
